@@ -360,9 +360,10 @@ func (ssc *StatefulSetController) adoptOrphanRevisions(set *apps.StatefulSet) er
 		}
 	}
 	if len(orphans) > 0 {
-		// a set that is being deleted adopts nothing (same rule as for pods)
+		// a set that is being deleted adopts nothing (same rule as for pods), and it must not
+		// go on to number, use or trim revisions it does not control
 		if set.DeletionTimestamp != nil {
-			return nil
+			return fmt.Errorf("can't adopt ControllerRevisions: %v/%v is being deleted", set.Namespace, set.Name)
 		}
 		// recheck with an uncached read before touching the orphans at all
 		fresh, err := ssc.pcClient.AppsV1().StatefulSets(set.Namespace).Get(context.TODO(), set.Name, metav1.GetOptions{})
